@@ -85,7 +85,7 @@ def run(tier):
         if left < 10:
             exhaustive = False
             break
-        share = left / (len(plan) - i)
+        share = min(left, 2.0 * left / (len(plan) - i))
         E = schedlib.Exploration(exe, [streams_[name], "threads=%d" % t], timeout=120)
         outcomes = {}
 
